@@ -153,6 +153,7 @@ def predicate_known(F, s, clustering_channels, truth, K):
 
 
 KNOWN_FIT = 'fit-termination-scatter'
+KNOWN_PILE = 'gmm-pile-strays'
 
 
 def fit_scatter(fit, sel_rfi, sel_mef, law):
@@ -262,8 +263,27 @@ def run(ctx):
             if ok1:
                 np.add.at(cont, (truth, np.array([ul[l] for l in labels.tolist()])), 1)
                 ok1 = bool(np.all((cont > 0).sum(axis=0) == 1) and np.all((cont > 0).sum(axis=1) == 1))
-        part_ok = ctx.check(ok1, 'partition-differs-from-generating-partition' + tag, cid, **desc)
-        dtag = tag if (known and not part_ok) else ''        # downstream of a known-mechanism partition failure
+        ptag = tag
+        if not ok1 and not known and labels.shape == truth.shape and len(set(labels.tolist())) == K:
+            # third listed mechanism: a subpopulation piled up on one value (at least nine in ten of its events identical in
+            # every clustering channel) gets a mixture component of practically zero width, and its few events off the pile
+            # are given to another component.  Classified only when EVERY misplaced event is such a stray.
+            Acl = np.asarray(s)[:, [names.index(c) for c in cl_ch]].astype(float)
+            maj = {l: int(np.bincount(truth[labels == l], minlength=K).argmax()) for l in set(labels.tolist())}
+            mis = np.array([maj[l] for l in labels.tolist()]) != truth
+            strays_only = bool(mis.any())
+            for k_ in sorted(set(truth[mis].tolist())):
+                rows_ = Acl[truth == k_]
+                vals_, cnt_ = np.unique(rows_, axis=0, return_counts=True)
+                pile = vals_[cnt_.argmax()]
+                piled = cnt_.max() >= 0.9 * len(rows_)
+                off_pile = np.any(Acl[mis & (truth == k_)] != pile, axis=1)
+                strays_only = strays_only and piled and bool(off_pile.all())
+            if strays_only:
+                ptag = '[known:%s]' % KNOWN_PILE
+                desc = dict(desc, known_key=KNOWN_PILE, misplaced=int(mis.sum()))
+        part_ok = ctx.check(ok1, 'partition-differs-from-generating-partition' + ptag, cid, **desc)
+        dtag = ptag if (ptag and not part_ok) else ''        # downstream of a known-mechanism partition failure
         # true subpopulations in brightness order (order of the clustering-channel means)
         A = np.asarray(s)
         pops = [A[truth == k] for k in range(K)]
